@@ -566,7 +566,7 @@ class RTCRtpReceiver:
                             ssrc=ssrc,
                             fraction_lost=stream.fraction_lost,
                             packets_lost=stream.packets_lost,
-                            highest_sequence=stream.max_seq,
+                            highest_sequence=stream.cycles + stream.max_seq,
                             jitter=stream.jitter,
                             lsr=lsr,
                             dlsr=dlsr,
